@@ -401,8 +401,21 @@ fn case(case_no: usize, rng: &mut Rng, rep: &mut Report, case_file: &std::path::
             let alone = catch(|| built.app.run(vec![it.0.clone()], Some(&json!({"parallelism": 1}))));
             set_app_sink(None);
             if let Ok(Ok(a)) = alone {
-                let mut pa: Vec<String> = a.iter().map(|r| project(r).to_string()).collect();
-                let mut pb: Vec<String> = responses.iter().filter(|r| r["request"].get("qid") == it.0.get("qid")).map(|r| project(r).to_string()).collect();
+                // the k-shortest-path algorithms pick among alternatives whose queue priorities tie (floored or equal
+                // costs) in hash-map iteration order, which differs from run to run even for a query alone; "served as
+                // when alone" is therefore judged on success / error and the first (least-cost) route for them
+                let ksp = spec.alg.is_ksp();
+                let proj = |r: &Value| -> String {
+                    let mut p = project(r);
+                    if ksp {
+                        if let Some(a) = p["route"].as_array() {
+                            p["route"] = a.first().cloned().unwrap_or(Value::Null);
+                        }
+                    }
+                    p.to_string()
+                };
+                let mut pa: Vec<String> = a.iter().map(proj).collect();
+                let mut pb: Vec<String> = responses.iter().filter(|r| r["request"].get("qid") == it.0.get("qid")).map(proj).collect();
                 pa.sort();
                 pb.sort();
                 if pa != pb {
